@@ -18,6 +18,10 @@ import (
 	"github.com/lmorg/murex/lang/parameters"
 	"github.com/lmorg/murex/lang/ref"
 	"github.com/lmorg/murex/lang/types"
+	"github.com/lmorg/murex/utils/ansi"
+	"github.com/lmorg/murex/utils/escape"
+	mxjson "github.com/lmorg/murex/utils/json"
+	"github.com/lmorg/murex/utils/parser"
 )
 
 type objOp struct {
@@ -219,6 +223,24 @@ func objKinds() []objKind {
 				}
 			}},
 			{"Dump", func(any) { lang.MethodStdin.Dump() }},
+		}},
+		// functions that have no business sharing anything: a scratch buffer or cache hoisted to package
+		// scope shows up as a race between two calls
+		{"stateless-functions", func() any { return nil }, []objOp{
+			{"float->str", func(any) { types.ConvertGoType(2306.1428571428573, types.String) }},
+			{"float->str 2", func(any) { types.ConvertGoType(5603.2857142857141, types.String) }},
+			{"int->str", func(any) { types.ConvertGoType(7, types.String) }},
+			{"str->int", func(any) { types.ConvertGoType("12", types.Integer) }},
+			{"str->num", func(any) { types.ConvertGoType("1.5", types.Number) }},
+			{"str->bool", func(any) { types.ConvertGoType("true", types.Boolean) }},
+			{"bool->str", func(any) { types.ConvertGoType(true, types.String) }},
+			{"str->json", func(any) { types.ConvertGoType(`{"a": [1, 2]}`, types.Json) }},
+			{"escape.CommandLine", func(any) { escape.CommandLine([]string{"a b", "c'd"}) }},
+			{"escape.Table", func(any) { escape.Table([]string{"a b", "c\"d"}) }},
+			{"parser.Parse", func(any) { parser.Parse([]rune("out 'x' | grep { y } > f"), 0) }},
+			{"json.Marshal", func(any) { mxjson.Marshal(map[string]any{"a": []any{1, "b"}}, false) }},
+			{"json.UnmarshalMurex", func(any) { var v any; mxjson.UnmarshalMurex([]byte(`{"a": [1, "b"]}`), &v) }},
+			{"ansi.ExpandConsts", func(any) { ansi.ExpandConsts("{RED}x{RESET}") }},
 		}},
 		{"unit-tests", func() any {
 			lang.GlobalUnitTests.Add("vf", &lang.UnitTestPlan{StdoutMatch: "f\n"}, objFileRef)
